@@ -493,7 +493,8 @@ theorem leafRes_sound {c : Ctx} {t : Nat} {ty : QM.Types.Ty} {isTest : Bool} {r 
     (h : leafRes c t ty isTest = some r) (hty : ty = .integer ∨ ty = .binary) :
     r.binds = [] ∧
     (∀ v, VT c t v → (∀ i, c.T.types[i]? = some ty → VT c i v) → VT c r.matched v) ∧
-    (r.irref = true → isTest = true ∧ c.T.types[t]? = some ty) := by
+    (r.irref = true → isTest = true ∧ c.T.types[t]? = some ty) ∧
+    c.T.types[r.covered]? = some ty ∧ r.faithful = isTest := by
   unfold leafRes at h
   split at h
   case h_2 => simp at h
@@ -506,7 +507,7 @@ theorem leafRes_sound {c : Ctx} {t : Nat} {ty : QM.Types.Ty} {isTest : Bool} {r 
   rename_i m hm
   simp only [Option.some.injEq] at h
   subst h
-  refine ⟨rfl, fun v hv hiv => narrowTo_sound hm hv (hiv i (findType_spec hi)), ?_⟩
+  refine ⟨rfl, fun v hv hiv => narrowTo_sound hm hv (hiv i (findType_spec hi)), ?_, findType_spec hi, rfl⟩
   intro hir
   simp only [Bool.and_eq_true, decide_eq_true_eq] at hir
   exact ⟨hir.1, hir.2 ▸ findType_spec hi⟩
@@ -565,7 +566,7 @@ theorem labels_inj {nm : String → Name} (hinj : Function.Injective nm) : ∀ (
 
 def PatPost (c : Ctx) (t : Nat) (r : PatRes) (v : QM.RefSem.Val) (acc : Env) : MRes → Prop
   | .unspec _ => False
-  | .failed => VT c t v → r.irref = false
+  | .failed => (VT c t v → r.irref = false) ∧ (r.faithful = true → ¬ VT c r.covered v)
   | .matched acc' => ∃ bs, acc' = bs ++ acc ∧ bs.map (·.1) = r.binds.map (·.1) ∧
       (VT c t v → BindsOK c r.binds bs ∧ VT c r.matched v)
 
@@ -669,7 +670,7 @@ mutual
       exact ⟨[], rfl, rfl, fun hv => ⟨by simp [BindsOK], hv⟩⟩
     | .lit (.int z), seen, t, r, v, acc, h, _ => by
       simp only [inferPat] at h
-      obtain ⟨hb, hm, hir⟩ := leafRes_sound h (Or.inl rfl)
+      obtain ⟨hb, hm, hir, _, hfa⟩ := leafRes_sound h (Or.inl rfl)
       simp only [matchPat, eqTest, litVal]
       cases hq : Val.eqv (.int z) v with
       | none => exact absurd hq (eqv_int_ne_none z v)
@@ -681,13 +682,13 @@ mutual
           exact hm v hv (fun i hi => by rw [eqv_int_true hq]; exact vt_int_intro hi z)
         | false =>
           simp only [PatPost]
-          intro _
+          refine ⟨fun _ => ?_, fun hf => by rw [hfa] at hf; exact Bool.noConfusion hf⟩
           cases hr : r.irref with
           | false => rfl
           | true => have := (hir hr).1; simp at this
     | .lit (.bin bs), seen, t, r, v, acc, h, _ => by
       simp only [inferPat] at h
-      obtain ⟨hb, hm, hir⟩ := leafRes_sound h (Or.inr rfl)
+      obtain ⟨hb, hm, hir, _, hfa⟩ := leafRes_sound h (Or.inr rfl)
       simp only [matchPat, eqTest, litVal]
       cases hq : Val.eqv (.bin bs) v with
       | none => exact absurd hq (eqv_bin_ne_none bs v)
@@ -699,13 +700,13 @@ mutual
           exact hm v hv (fun i hi => by rw [eqv_bin_true hq]; exact vt_bin_intro hi bs)
         | false =>
           simp only [PatPost]
-          intro _
+          refine ⟨fun _ => ?_, fun hf => by rw [hfa] at hf; exact Bool.noConfusion hf⟩
           cases hr : r.irref with
           | false => rfl
           | true => have := (hir hr).1; simp at this
     | .type .int, seen, t, r, v, acc, h, _ => by
       simp only [inferPat] at h
-      obtain ⟨hb, hm, hir⟩ := leafRes_sound h (Or.inl rfl)
+      obtain ⟨hb, hm, hir, hcov, _⟩ := leafRes_sound h (Or.inl rfl)
       simp only [matchPat]
       cases hq : hasType .int v with
       | true =>
@@ -715,15 +716,17 @@ mutual
         exact hm v hv (fun i hi => by rw [hz]; exact vt_int_intro hi z)
       | false =>
         simp only [Bool.false_eq_true, if_false, PatPost]
-        intro hv
-        cases hr : r.irref with
-        | false => rfl
-        | true =>
-          obtain ⟨z, hz⟩ := vt_int_inv (hir hr).2 hv
+        refine ⟨fun hv => ?_, fun _ hv => ?_⟩
+        · cases hr : r.irref with
+          | false => rfl
+          | true =>
+            obtain ⟨z, hz⟩ := vt_int_inv (hir hr).2 hv
+            rw [hz] at hq; simp [hasType] at hq
+        · obtain ⟨z, hz⟩ := vt_int_inv hcov hv
           rw [hz] at hq; simp [hasType] at hq
     | .type .bin, seen, t, r, v, acc, h, _ => by
       simp only [inferPat] at h
-      obtain ⟨hb, hm, hir⟩ := leafRes_sound h (Or.inr rfl)
+      obtain ⟨hb, hm, hir, hcov, _⟩ := leafRes_sound h (Or.inr rfl)
       simp only [matchPat]
       cases hq : hasType .bin v with
       | true =>
@@ -733,11 +736,13 @@ mutual
         exact hm v hv (fun i hi => by rw [hz]; exact vt_bin_intro hi z)
       | false =>
         simp only [Bool.false_eq_true, if_false, PatPost]
-        intro hv
-        cases hr : r.irref with
-        | false => rfl
-        | true =>
-          obtain ⟨z, hz⟩ := vt_bin_inv (hir hr).2 hv
+        refine ⟨fun hv => ?_, fun _ hv => ?_⟩
+        · cases hr : r.irref with
+          | false => rfl
+          | true =>
+            obtain ⟨z, hz⟩ := vt_bin_inv (hir hr).2 hv
+            rw [hz] at hq; simp [hasType] at hq
+        · obtain ⟨z, hz⟩ := vt_bin_inv hcov hv
           rw [hz] at hq; simp [hasType] at hq
     | .tup n pfs, seen, t, r, v, acc, h, ha => by
       simp only [inferPat] at h
@@ -778,6 +783,21 @@ mutual
           · simp at hinfo
         · simp at hinfo
       obtain ⟨id, hkty, hktu, hkname, hklabels⟩ := hkinfo
+      -- both claims about a failed match follow from: no value of the variant `k` fails
+      have wrap : ∀ res : MRes, (match res with | .matched _ => True | .unspec _ => True | .failed => (VT c k v → irr = true → False)) →
+          (res = .failed → PatPost c t ⟨binds, m, irr && decide (t = k), k, irr⟩ v acc .failed) := by
+        intro res hres hfail
+        subst hfail
+        simp only at hres
+        simp only [PatPost]
+        refine ⟨fun hv => ?_, fun hf hv => hres hv hf⟩
+        cases hr : (irr && decide (t = k)) with
+        | false => rfl
+        | true =>
+          simp only [Bool.and_eq_true, decide_eq_true_eq] at hr
+          obtain ⟨hirr, htk⟩ := hr
+          subst htk
+          exact (hres hv hirr).elim
       cases v with
       | tup m fs =>
         simp only [matchPat]
@@ -805,78 +825,65 @@ mutual
           | failed =>
             rw [hq] at hF
             simp only [FieldsPost] at hF
-            simp only [PatPost]
-            intro hv
-            cases hr : (irr && decide (t = k)) with
-            | false => rfl
-            | true =>
-              simp only [Bool.and_eq_true, decide_eq_true_eq] at hr
-              obtain ⟨hirr, htk⟩ := hr
-              subst htk
-              obtain ⟨w, hw, hin⟩ := hv
-              obtain ⟨name, ws, f, hwv, hname, hf⟩ := inh_tuple hkty hktu hin
-              subst hwv
-              obtain ⟨n', fs', hv', hn', hfs'⟩ := toV_tup_inv hw
-              simp only [QM.RefSem.Val.tup.injEq] at hv'
-              obtain ⟨hn1, hf1⟩ := hv'
-              subst hn1 hf1
-              have hlab : fs.map (·.1) = pfs.map (·.1) := by
-                apply labels_inj hinj
-                rw [← hklabels, fieldsB_labels _ _ hf, toVFields_labels fs _ hfs']
-                simp
-              have := hF hlab (fieldsB_FieldsVT _ _ _ hf hfs')
-              rw [hirr] at this
-              exact Bool.noConfusion this
-        · simp only [hnm, if_false, PatPost]
-          intro hv
-          cases hr : (irr && decide (t = k)) with
-          | false => rfl
-          | true =>
-            simp only [Bool.and_eq_true, decide_eq_true_eq] at hr
-            obtain ⟨_, htk⟩ := hr
-            subst htk
+            refine wrap .failed ?_ rfl
+            simp only
+            intro hv hirr
             obtain ⟨w, hw, hin⟩ := hv
             obtain ⟨name, ws, f, hwv, hname, hf⟩ := inh_tuple hkty hktu hin
             subst hwv
-            obtain ⟨n', fs', hv', hn', _⟩ := toV_tup_inv hw
+            obtain ⟨n', fs', hv', hn', hfs'⟩ := toV_tup_inv hw
             simp only [QM.RefSem.Val.tup.injEq] at hv'
-            obtain ⟨hn1, _⟩ := hv'
-            subst hn1
-            exact absurd (optmap_inj hinj (by rw [← hkname, ← hname, hn'])) hnm
+            obtain ⟨hn1, hf1⟩ := hv'
+            subst hn1 hf1
+            have hlab : fs.map (·.1) = pfs.map (·.1) := by
+              apply labels_inj hinj
+              rw [← hklabels, fieldsB_labels _ _ hf, toVFields_labels fs _ hfs']
+              simp
+            have := hF hlab (fieldsB_FieldsVT _ _ _ hf hfs')
+            rw [hirr] at this
+            exact Bool.noConfusion this
+        · simp only [hnm, if_false]
+          refine wrap .failed ?_ rfl
+          simp only
+          intro hv _
+          obtain ⟨w, hw, hin⟩ := hv
+          obtain ⟨name, ws, f, hwv, hname, hf⟩ := inh_tuple hkty hktu hin
+          subst hwv
+          obtain ⟨n', fs', hv', hn', _⟩ := toV_tup_inv hw
+          simp only [QM.RefSem.Val.tup.injEq] at hv'
+          obtain ⟨hn1, _⟩ := hv'
+          subst hn1
+          exact absurd (optmap_inj hinj (by rw [← hkname, ← hname, hn'])) hnm
       | int z =>
-        simp only [matchPat, PatPost]
-        intro hv
-        cases hr : (irr && decide (t = k)) with
-        | false => rfl
-        | true =>
-          simp only [Bool.and_eq_true, decide_eq_true_eq] at hr
-          obtain ⟨_, htk⟩ := hr
-          subst htk
-          obtain ⟨w, hw, hin⟩ := hv
-          obtain ⟨name, ws, f, hwv, _, _⟩ := inh_tuple hkty hktu hin
-          subst hwv
-          simp [toV] at hw
+        simp only [matchPat]
+        refine wrap .failed ?_ rfl
+        simp only
+        intro hv _
+        obtain ⟨w, hw, hin⟩ := hv
+        obtain ⟨name, ws, f, hwv, _, _⟩ := inh_tuple hkty hktu hin
+        subst hwv
+        simp [toV] at hw
       | bin bs =>
-        simp only [matchPat, PatPost]
-        intro hv
-        cases hr : (irr && decide (t = k)) with
-        | false => rfl
-        | true =>
-          simp only [Bool.and_eq_true, decide_eq_true_eq] at hr
-          obtain ⟨_, htk⟩ := hr
-          subst htk
-          obtain ⟨w, hw, hin⟩ := hv
-          obtain ⟨name, ws, f, hwv, _, _⟩ := inh_tuple hkty hktu hin
-          subst hwv
-          simp [toV] at hw
+        simp only [matchPat]
+        refine wrap .failed ?_ rfl
+        simp only
+        intro hv _
+        obtain ⟨w, hw, hin⟩ := hv
+        obtain ⟨name, ws, f, hwv, _, _⟩ := inh_tuple hkty hktu hin
+        subst hwv
+        simp [toV] at hw
       | clo _ _ _ =>
-        simp only [matchPat, PatPost]
-        intro hv
+        simp only [matchPat]
+        refine wrap .failed ?_ rfl
+        simp only
+        intro hv _
         obtain ⟨w, hw, _⟩ := hv
         simp [toV] at hw
       | builtin _ =>
-        simp only [matchPat, PatPost]
-        intro hv
+        simp only [matchPat]
+        refine wrap .failed ?_ rfl
+        simp only
+        intro hv _
         obtain ⟨w, hw, _⟩ := hv
         simp [toV] at hw
     | .pin _, _, _, _, _, _, h, _ => by simp [inferPat] at h
@@ -940,7 +947,7 @@ mutual
               simp only [FieldsPost]
               intro _ hvt
               simp only [FieldsVT] at hvt
-              simp [hP hvt.1]
+              simp [hP.1 hvt.1]
             | matched acc1 =>
               rw [hq] at hP
               simp only [PatPost] at hP
@@ -979,6 +986,7 @@ structure CurrentRules (c : Ctx) : Prop where
   seq : c.cfg.seq = .accumulated
   idx : c.cfg.idx = .always
   unionArg : c.cfg.unify.unionArg = .everyVariant
+  compl : c.cfg.compl ≠ .alsoValuePatterns
   nmInj : Function.Injective c.nm
 
 theorem vt_verdict {c : Ctx} {irref : Bool} {vt : Nat} (h : verdictTy c irref = some vt) :
@@ -1031,7 +1039,7 @@ theorem doMatch_sound (c : Ctx) (hr : CurrentRules c) {Γ Γ' : TEnv} {ρ : Env}
   | failed =>
     rw [hq] at hP
     simp only [PatPost] at hP
-    have hir := hP hv
+    have hir := hP.1 hv
     simp only [Good]
     refine ⟨(vt_verdict hvt).2 hir, fun hn => ?_, fun ht => ?_⟩
     · simp [Val.nil, Val.isNil] at hn
@@ -1475,6 +1483,139 @@ theorem inferSeqChains_nonempty (c : Ctx) {Γ Γ' : TEnv} {ft : Nat} {ch : Chain
     case h_2 => simp at h
     simp only [Option.some.injEq, Prod.mk.injEq] at h
     exact ⟨⟨_, _, h.1.symm⟩, ⟨_, _, h.2.2.symm⟩⟩
+
+theorem inh_of_flat1_mem {T : Table} {r j : Nat} {w : V} (hj : j ∈ flat1 T r) (hfo : QM.Soundness.FO T j)
+    (h : inh T [] j w) : inh T [] r w := by
+  unfold flat1 at hj
+  split at hj
+  · rename_i vs hty
+    obtain ⟨f, hf⟩ := inh_ext (Ext.refl T) hfo h (st' := [r])
+    refine ⟨f + 1, ?_⟩
+    unfold inhB; rw [hty]; simp only
+    exact List.any_eq_true.mpr ⟨j, hj, hf⟩
+  · simp only [List.mem_singleton] at hj
+    subst hj; exact h
+
+/-- what is left of the parameter type after a faithful pattern failed. -/
+theorem complementIn_sound {c : Ctx} {a k : Nat} {res : Option Nat} (h : complementIn c a k = some res)
+    {v : QM.RefSem.Val} (ha : VT c a v) (hk : ¬ VT c k v) :
+    match res with
+    | none => False
+    | some r => VT c r v := by
+  unfold complementIn at h
+  split at h
+  case isFalse => simp at h
+  rename_i hok
+  have hok' := hok
+  unfold tupScrutOk at hok'
+  simp only [Bool.and_eq_true] at hok'
+  obtain ⟨w, hw, hin⟩ := ha
+  obtain ⟨j, hj, hjw⟩ := flat1_inh ⟨_, hok'.1⟩ hin
+  have hjk : j ≠ k := fun e => hk ⟨w, hw, e ▸ hjw⟩
+  have hmem : j ∈ (flat1 c.T a).filter (fun j => j != k) := by
+    simp [List.mem_filter, hj, hjk]
+  split at h
+  case h_2 => simp at h
+  rename_i T' r hcomp
+  split at h
+  case isFalse => simp at h
+  dsimp only at h
+  split at h
+  · rename_i hemp
+    rw [List.isEmpty_iff] at hemp
+    rw [hemp] at hmem
+    cases hmem
+  · split at h
+    · rename_i hall
+      simp only [Option.some.injEq] at h
+      subst h
+      have hjr := List.all_eq_true.mp hall j hmem
+      simp only [List.contains_iff_mem] at hjr
+      exact ⟨w, hw, inh_of_flat1_mem hjr (flat1_fo ⟨_, hok'.1⟩ j hj) hjw⟩
+    · simp at h
+
+theorem dispatchPat_eq {cond : List Chain} {p : Pat} (h : dispatchPat cond = some p) :
+    cond = [.mk none [.mtch p]] := by
+  unfold dispatchPat at h
+  split at h
+  · simp only [Option.some.injEq] at h; rw [h]
+  · simp at h
+
+/-- a branch failed: the block parameter has the type the later branches are typed with, and the
+block was not declared exhaustive because of this branch. -/
+theorem nextParam_sound (c : Ctx) (hr : CurrentRules c) (hcompl : c.cfg.compl ≠ .alsoValuePatterns)
+    {Γ Γ1 : TEnv} {ρ ρ1 : Env} {ft ft' : Nat} {nev : Bool}
+    {flow : QM.RefSem.Val} {cond cond' : List Chain} {ts : List Nat} {n : Nat}
+    (hnp : nextParam c ft cond = some (ft', nev))
+    (hinf : inferSeqChains c Γ ft cond = some (ts, Γ1, cond')) (hflow : VT c ft flow)
+    (hev : evalSeq n ρ flow cond' = .ok (Val.nil, ρ1)) : VT c ft' flow ∧ nev = false := by
+  unfold nextParam at hnp
+  split at hnp
+  case h_2 => simp only [Option.some.injEq, Prod.mk.injEq] at hnp; exact ⟨hnp.1 ▸ hflow, hnp.2.symm⟩
+  rename_i p hdp
+  split at hnp
+  case h_2 => simp only [Option.some.injEq, Prod.mk.injEq] at hnp; exact ⟨hnp.1 ▸ hflow, hnp.2.symm⟩
+  rename_i r hp
+  split at hnp
+  · simp only [Option.some.injEq, Prod.mk.injEq] at hnp; exact ⟨hnp.1 ▸ hflow, hnp.2.symm⟩
+  split at hnp
+  case isFalse => simp only [Option.some.injEq, Prod.mk.injEq] at hnp; exact ⟨hnp.1 ▸ hflow, hnp.2.symm⟩
+  rename_i hfa
+  have hfaith : r.faithful = true := by
+    rcases Bool.or_eq_true _ _ |>.mp hfa with h1 | h1
+    · exact h1
+    · simp only [decide_eq_true_eq] at h1; exact absurd h1 hcompl
+  -- the condition is the single chain `=p`, and it evaluated to nil: the match failed
+  have hc := dispatchPat_eq hdp
+  subst hc
+  simp only [inferSeqChains, inferChain] at hinf
+  split at hinf
+  case h_2 => simp at hinf
+  rename_i t1 Γ2 ch' hch
+  split at hch
+  case h_2 => simp at hch
+  rename_i t2 Γ3 ts3 hts
+  have := inferTerms_single hts
+  subst this
+  simp only [Option.some.injEq, Prod.mk.injEq] at hch hinf
+  have hch' : ch' = .mk none [.mtch p] := hch.2.2.symm
+  subst hch'
+  rw [← hinf.2.2] at hev
+  have hfailed : matchPat ρ p flow [] = .failed := by
+    cases n with
+    | zero => simp [evalSeq] at hev
+    | succ n =>
+      simp only [evalSeq] at hev
+      cases hq : evalChain n ρ flow (.mk none [.mtch p]) with
+      | ok res =>
+        rw [hq] at hev
+        simp only [Res.bind, Res.ok.injEq] at hev
+        have hdm := evalChain_paramMatch n res hq
+        unfold doMatch at hdm
+        cases hm : matchPat ρ p flow [] with
+        | failed => rfl
+        | matched bs =>
+          rw [hm] at hdm
+          simp only [Res.ok.injEq] at hdm
+          rw [← hdm] at hev
+          simp [Val.okv, Val.nil] at hev
+        | unspec _ => rw [hm] at hdm; simp at hdm
+      | fuelOut => rw [hq] at hev; simp [Res.bind] at hev
+      | err _ => rw [hq] at hev; simp [Res.bind] at hev
+      | unspec _ => rw [hq] at hev; simp [Res.bind] at hev
+  have hP := pat_sound c hr.nmInj ρ p [] ft r flow [] hp (fun y hy => by simp [lookup] at hy)
+  rw [hfailed] at hP
+  simp only [PatPost] at hP
+  have hnot := hP.2 hfaith
+  split at hnp
+  · rename_i hci
+    exact (complementIn_sound hci hflow hnot).elim
+  · rename_i r' hci
+    simp only [Option.some.injEq, Prod.mk.injEq] at hnp
+    have := complementIn_sound hci hflow hnot
+    simp only at this
+    exact ⟨hnp.1 ▸ this, hnp.2.symm⟩
+  · simp at hnp
 
 theorem infer_step (c : Ctx) (hr : CurrentRules c) (n : Nat)
     (ih : TermOK c n ∧ TermsOK c n ∧ ChainOK c n ∧ FieldsOK c n ∧ SeqOK c n ∧ ExprOK c n) :
@@ -1945,6 +2086,9 @@ theorem infer_step (c : Ctx) (hr : CurrentRules c) (n : Nat)
       rename_i tb cons' hcons
       split at h
       case h_2 => simp at h
+      rename_i ft' nev hnp
+      split at h
+      case h_2 => simp at h
       rename_i tys0 ex0 rest' hrest
       simp only [Option.some.injEq, Prod.mk.injEq] at h
       obtain ⟨h1, h2, h3⟩ := h
@@ -1972,12 +2116,15 @@ theorem infer_step (c : Ctx) (hr : CurrentRules c) (n : Nat)
           simp only [if_true]
           have hvn := isNil_eq hnil
           subst hvn
-          refine Good.mono (ihE Γ ρ ft flow rest tys0 ex0 rest' hrest hE hflow) ?_
+          obtain ⟨hflow2, hnev⟩ := nextParam_sound c hr hr.compl hnp hcond hflow hq
+          subst hnev
+          refine Good.mono (ihE Γ ρ ft' flow rest tys0 ex0 rest' hrest hE hflow2) ?_
           intro v2 hv2
           rcases hv2 with ⟨t0, ht0, hv0⟩ | ⟨hn2, hex⟩
           · exact Or.inl ⟨t0, List.mem_cons_of_mem _ ht0, hv0⟩
           · right
             refine ⟨hn2, ?_⟩
+            simp only [Bool.false_or]
             unfold exhaustiveFlag
             split
             · simp [vt_nil_nilIn hvtc]
@@ -2108,7 +2255,7 @@ occur in a closed program). -/
 theorem infer_sound_fragment (fuel : Nat) : TypeSoundnessStatement (FragmentAccepts fuel) := by
   intro cs T nm τ cs' hinj h n
   let c : Ctx := ⟨{ fuel := fuel }, T, nm, []⟩
-  have hr : CurrentRules c := ⟨rfl, rfl, rfl, hinj⟩
+  have hr : CurrentRules c := ⟨rfl, rfl, rfl, (by intro h; exact ComplRule.noConfusion h), hinj⟩
   have hE : EnvOK c [] [] := ⟨fun x t hx => by simp [tlookup] at hx, fun x p r _ hf => by simp [c, flookup] at hf⟩
   simp only [FragmentAccepts, inferProgram] at h
   split at h
@@ -2210,5 +2357,58 @@ theorem skip_seen_types_breaks_infer_sound :
   refine ⟨by decide, by decide, by decide, by decide, ?_, by decide⟩
   intro f
   cases f <;> simp [inhB, tPerm]
+
+/-! ### Blocks: examples and a rule that breaks the theorem
+
+names: A = 10, Ok = 9. tuples: 0 `[]`, 1 `Ok`, 2 `A`;
+types: 0 'int, 1 `[]`, 2 `Ok`, 3 `Ok | []`, 4 `A`, 5 never, 6 `A | []`, 7 `'int | []`. -/
+def tBlk : Table :=
+  { types := [.integer, .tuple 0, .tuple 1, .union [2, 1], .tuple 2, .union [], .union [4, 1], .union [0, 1]],
+    tuples := [⟨none, []⟩, ⟨some 9, []⟩, ⟨some 10, []⟩] }
+
+def cBlk (compl : ComplRule) (narrow : NarrowRule) : Ctx :=
+  ⟨{ compl := compl, narrow := narrow }, tBlk, nmPerm, []⟩
+
+/-- `x { | ='int => 1 | =[] => 2 }` with `x : 'int | []` -/
+def pDispatch : List Chain :=
+  [.mk none [.access (.var "x") [],
+     .block (.mk [.mk [.mk none [.mtch (.type .int)]] (some [.mk none [.lit (.int 1)]]),
+                  .mk [.mk none [.mtch (.tup none [])]] (some [.mk none [.lit (.int 2)]])])]]
+
+/-- with the complement the second branch sees `[]`, its pattern is irrefutable, the block is
+exhaustive: type `'int`; without it the block is typed `'int | []`; both runs yield an integer. -/
+example :
+    (inferSeq (cBlk .faithful .matched) [("x", 7)] 1 pDispatch).map (·.1) = some 0 ∧
+    (inferSeq (cBlk .off .matched) [("x", 7)] 1 pDispatch).map (·.1) = some 7 ∧
+    (match evalSeq 12 [("x", some (.int 5))] Val.nil pDispatch with | .ok (.int 1, _) => true | _ => false) = true ∧
+    (match evalSeq 12 [("x", some Val.nil)] Val.nil pDispatch with | .ok (.int 2, _) => true | _ => false) = true := by
+  refine ⟨by decide, by decide, by decide, by decide⟩
+
+/-- `x { | =0 => A }` with `x : 'int` -/
+def pLitCover : List Chain :=
+  [.mk none [.access (.var "x") [],
+     .block (.mk [.mk [.mk none [.mtch (.lit (.int 0))]] (some [.mk none [.tuple (.named "A") []]])])]]
+
+/-- **a literal pattern must not count as covering its type** (`prevents_complement_narrowing`): if
+it does, `'int ∖ 'int` is never, the block `x { | =0 => A }` is exhaustive and typed `A`, and with
+`x = 1` it yields `[]`. The code as it is types it `A | []`. -/
+theorem value_pattern_complement_breaks_infer_sound :
+    (inferSeq (cBlk .alsoValuePatterns .matched) [("x", 0)] 1 pLitCover).map (·.1) = some 4 ∧
+    (match evalSeq 12 [("x", some (.int 1))] Val.nil pLitCover with | .ok (v, _) => v.isNil | _ => false) = true ∧
+    (∀ f, inhB tBlk f [] 4 (.tup none .nil) = false) ∧
+    (inferSeq (cBlk .faithful .matched) [("x", 0)] 1 pLitCover).map (·.1) = some 6 := by
+  refine ⟨by decide, by decide, ?_, by decide⟩
+  intro f
+  cases f <;> simp [inhB, tBlk, fieldsB]
+
+/-- the forward-narrowing rule before 47b34c5 (narrow to `result_type`, nil marker included) keeps
+the scrutinee's nil after `='int`: WIDER than the matched type, so it cannot break the theorem in
+this fragment (`narrowTo_sound` covers all three rules) — it was unsound only through the
+case-table guards of the call-site dispatch, which are outside. -/
+example :
+    (inferPat (cBlk .faithful .matched) [] 7 (.type .int)).map (·.matched) = some 0 ∧
+    (inferPat (cBlk .faithful .withNilMarker) [] 7 (.type .int)).map (·.matched) = some 7 ∧
+    (inferPat (cBlk .faithful .none) [] 7 (.type .int)).map (·.matched) = some 7 := by
+  refine ⟨by decide, by decide, by decide⟩
 
 end C01
